@@ -1555,7 +1555,7 @@ class LeadLag2ndOrd(Block):
                                 cache=True, z0=1, z1=0)
             self.LT2 = LessThan(T2, dummify(0), equal=True, enable=zero_out, tex_name='LT',
                                 cache=True, z0=1, z1=0)
-            self.LT3 = LessThan(T4, dummify(0), equal=True, enable=zero_out, tex_name='LT',
+            self.LT3 = LessThan(T3, dummify(0), equal=True, enable=zero_out, tex_name='LT',
                                 cache=True, z0=1, z1=0)
             self.LT4 = LessThan(T4, dummify(0), equal=True, enable=zero_out, tex_name='LT',
                                 cache=True, z0=1, z1=0)
